@@ -54,6 +54,7 @@ func directedNames() []string {
 	for _, h := range historyDirected {
 		out = append(out, h.name)
 	}
+	out = append(out, widenedDirected...)
 	return out
 }
 
@@ -62,8 +63,8 @@ func directedNames() []string {
 
 type histCase struct {
 	name     string
-	start    string   // policy of the trigger's environment: none | urns | absent (= none, key left out)
-	steps    []string // per resume: "" no environment | policy-only | policy+other | other-only | identical, suffixes: "+contact" refreshed contact, "+restart" read back first, "+absent" write none by leaving the key out
+	start    string   // policy of the trigger's environment: none | urns | absent (= none, key left out) | empty (= none, written as "") | null (= none, written as null)
+	steps    []string // per resume: "" no environment | policy-only | policy+other | other-only | identical, suffixes: "+contact" refreshed contact, "+restart" read back first, "+absent" write none by leaving the key out, "+empty" write none as the empty string
 	noisy    bool     // the flows copy URN-derived values into results / messages (leaves URN-derived state behind under policy none)
 	trigger  string   // manual | msg | flow_action
 	emptyEnv bool     // every other setting at its default (environment {} plus the policy)
@@ -82,6 +83,11 @@ var historyDirected = []histCase{
 	{name: "policy-switch-parent-summary", start: "none", steps: []string{"policy-only", "+restart", "policy-only", ""}, trigger: "flow_action"},
 	{name: "policy-switch-parent-summary-noisy", start: "urns", steps: []string{"policy-only", "policy-only", ""}, noisy: true, trigger: "flow_action"},
 	{name: "policy-late-switch-after-restart", start: "none", steps: []string{"", "+restart", "policy-only", ""}, trigger: "manual"},
+	// "no policy" in the spellings ReadEnvironment admits besides "none" and a missing key: the empty string and null
+	{name: "policy-empty-string-then-urns", start: "empty", steps: []string{"", "+restart", "policy-only", "policy-only+empty", "+restart"}, trigger: "msg"},
+	{name: "policy-urns-then-empty-string", start: "urns", steps: []string{"policy-only+empty", "", "identical+empty+restart"}, trigger: "manual"},
+	{name: "policy-empty-string-parent-summary", start: "empty", steps: []string{"", "other-only+empty"}, noisy: true, trigger: "flow_action"},
+	{name: "policy-null-then-urns", start: "null", steps: []string{"", "policy-only", ""}, trigger: "msg", emptyEnv: true},
 }
 
 func historyCase(name string) *histCase {
@@ -144,6 +150,10 @@ func buildHistory(h *histCase) (*gen.Scenario, map[int]bool) {
 		env["redaction_policy"] = "urns"
 	case "none":
 		env["redaction_policy"] = "none"
+	case "empty":
+		env["redaction_policy"] = ""
+	case "null":
+		env["redaction_policy"] = nil
 	}
 	t["environment"] = cloneJSON(env)
 
@@ -185,6 +195,8 @@ func buildHistory(h *histCase) (*gen.Scenario, map[int]bool) {
 			}
 			if policy == "none" && has("absent") {
 				delete(env, "redaction_policy")
+			} else if policy == "none" && has("empty") {
+				env["redaction_policy"] = ""
 			} else {
 				env["redaction_policy"] = policy
 			}
@@ -377,5 +389,5 @@ func directedScenario(name string) *gen.Scenario {
 				d.SendMsg("m0", "started @results")}, nil, d.Exit("a0x", "")))),
 			Trigger: d.Manual("A", threeSchemeContact())}
 	}
-	return nil
+	return directedWidened(name)
 }
